@@ -44,6 +44,8 @@ func checkSig(ctx *pbt.Ctx, c SigCase) error {
 			others[i] = snap{append([]byte{}, in.Bytes(false)...), in.PreviousTxSatoshis, append([]byte{}, *in.PreviousTxScript...)}
 		}
 	}
+	chk := tx.Inputs[c.Idx]
+	chkPrevBefore, chkSatsBefore := append([]byte{}, *chk.PreviousTxScript...), chk.PreviousTxSatoshis
 	outs := make([][]byte, len(tx.Outputs))
 	for i, o := range tx.Outputs {
 		outs[i] = append([]byte{}, o.Bytes()...)
@@ -74,6 +76,13 @@ func checkSig(ctx *pbt.Ctx, c SigCase) error {
 		if !bytes.Equal(in.Bytes(false), s.ext) || in.PreviousTxSatoshis != s.sats || !bytes.Equal(*in.PreviousTxScript, s.prev) {
 			return fmt.Errorf("input %d (not the checked one) changed by execution; %s", i, id)
 		}
+	}
+	// the statement allows exactly one side effect: the checked input records the spent output
+	recorded := chk.PreviousTxScript != nil && bytes.Equal(*chk.PreviousTxScript, c.Lock) && chk.PreviousTxSatoshis == c.Amount
+	untouched := chk.PreviousTxScript != nil && bytes.Equal(*chk.PreviousTxScript, chkPrevBefore) && chk.PreviousTxSatoshis == chkSatsBefore
+	if !recorded && !untouched {
+		return fmt.Errorf("checked input carries previous script %x / %d satoshis after execution: neither what it carried before (%x / %d) nor the spent output (%x / %d); %s",
+			[]byte(*chk.PreviousTxScript), chk.PreviousTxSatoshis, chkPrevBefore, chkSatsBefore, []byte(c.Lock), c.Amount, id)
 	}
 	if !bytes.Equal(*lockObj, c.Lock) || !bytes.Equal(*tx.Inputs[c.Idx].UnlockingScript, c.Unlock) {
 		return fmt.Errorf("script bytes changed by execution; %s", id)
